@@ -214,6 +214,9 @@ pub struct Ctx {
     pub executions: u64,
     pub nontrivial: HashSet<u64>,
     pub nontrivial_mod: u64,
+    /// distinct non-trivial cases counted directly by an engine that deduplicates itself
+    /// (stateright's unique states, loom's schedules)
+    pub nontrivial_direct: u64,
     pub hist: BTreeMap<String, u64>,
     pub guards: BTreeMap<String, u64>,
     pub violations: BTreeMap<String, Viol>,
@@ -242,6 +245,7 @@ impl Ctx {
             executions: 0,
             nontrivial: HashSet::new(),
             nontrivial_mod: 1,
+            nontrivial_direct: 0,
             hist: BTreeMap::new(),
             guards: BTreeMap::new(),
             violations: BTreeMap::new(),
@@ -388,6 +392,7 @@ impl Ctx {
             "extra": self.extra,
             "capped": self.capped,
             "nontrivial_mod": self.nontrivial_mod,
+            "nontrivial_direct": self.nontrivial_direct,
         })
     }
 }
